@@ -775,7 +775,7 @@ func (f *STFS) Rename(oldname, newname string) error {
 		return nil
 	}
 
-	if strings.HasPrefix(newname, strings.TrimSuffix(oldname, "/")+"/") {
+	if source.Typeflag == tar.TypeDir && strings.HasPrefix(newname, strings.TrimSuffix(oldname, "/")+"/") {
 		return os.ErrInvalid
 	}
 
